@@ -221,8 +221,14 @@ def verify_commutative_reducer(facts, body):
             rv = s["rv"]
             if rv["k"] == "binop" and rv["op"] in COMMUTATIVE_INT_OPS:
                 a, b2 = rv["a"], rv["b"]
-                sa = a["k"] in ("copy", "move") and a["place"]["l"] == l and not a["place"]["p"]
-                sb_ = b2["k"] in ("copy", "move") and b2["place"]["l"] == l and not b2["place"]["p"]
+                def is_acc(o, _l=l):
+                    if o["k"] not in ("copy", "move"):
+                        return False
+                    if o["place"]["l"] == _l and not o["place"]["p"]:
+                        return True
+                    r_ = v.root(o)   # a temporary copy of the accumulator (`acc = x | acc`)
+                    return r_.kind == "local" and r_.base[1] == _l and not r_.path
+                sa, sb_ = is_acc(a), is_acc(b2)
                 if sa != sb_:
                     continue
             elif rv["k"] == "use" and rv["op"]["k"] in ("copy", "move") and rv["op"]["place"]["p"] and rv["op"]["place"]["p"][0]["k"] == "field":
